@@ -6,36 +6,42 @@ import RomeaProofs.Lemmas.C14RN
 # C14 — ray casting visits a connected, in-bounds chain of cells covering the segment
 
 Property theorems about the model `RomeaModel/RayCast.lean` of `RayCasting<Scalar, DIM>`
-(src/containers/grid/RayTracing.cpp) on its `GridIndexMapping`.
+(src/containers/grid/RayTracing.cpp, as repaired by /repo 5c8bf28: per-axis count of the border crossings
+still to be made, an exhausted axis carries the sentinel) on its `GridIndexMapping`.
 
-* Scalars: the geometric theorems are over `ℝ` (exact arithmetic on the values of the floats; rounding of
-  the crossing parameters is outside the theorems: correspondence check + probe).  The only partial
-  operations on the path are the divisions by the ray length `range` and by a direction component; both
-  guards are discharged explicitly (`o ≠ e` gives `range > 0`; a component is only divided by when the
-  step on that axis is non-zero, i.e. the component is non-zero).  Mathlib's `x / 0 = 0` is therefore never
-  relied on.  The coincident case `o = e` (the C++ computes `0/0 = NaN`) is covered separately by
-  `coincident`, which holds for EVERY scalar type, hence also for `Float`, `Float32` and `RN`: the
-  direction is never inspected because the chain has length one.
-* The sentinel `std::numeric_limits<Scalar>::max()` is an arbitrary real `Big.M`; the hypothesis
-  `range < Big.M` is all that is needed of it ("the sentinel never wins while a real crossing remains").
-* `Spec` (decision tree of `next`, summation order of `norm()`) enters through `SpecOK`; `spec2_ok`,
-  `spec3d_ok`, `spec3f_ok` discharge it for the four C++ instantiations, so every theorem below applies to
-  `RayCasting2f/2d/3f/3d`.
-* History independence (`history_independent*`, `castTo_depends_on_origin_only`) holds for every scalar
-  type, by induction over operation sequences — it is a statement about which members `setOriginPoint` and
-  `setEndPoint` overwrite, not about arithmetic.
+Three groups of statements:
 
-* What the exact-arithmetic theorems do NOT carry over to `float`/`double` (recorded finding
-  `ill-conditioned-axis`, found by the probe of this check): on a ray whose direction has a component of a few
-  ulp and which straddles a cell border on that axis, the rounding of `(voxelBorder - origin) / direction` is
-  amplified by `1 / |component|`; the needed crossing then gets a parameter beyond the end of the ray and the
-  real code (and the `Float` instance of this model, bit for bit) overshoots by one cell on another axis —
-  `in_bounds`, `cells_are_crossed` and `ends_at_end` fail there for the floating-point instances.  Over `ℝ`
-  `AxisFacts.needed` proves that crossing to lie before the end, which is exactly the step rounding breaks.
+1. **Every scalar type, no hypothesis** (`history_independent*`, `castTo_depends_on_origin_only`,
+   `starts_at_origin`, `coincident`): which members `setOriginPoint` / `setEndPoint` overwrite, by induction
+   over operation sequences; the coincident case `o = e` (the C++ computes `0/0 = NaN`) gives the one-cell
+   chain because the direction is never inspected.  `coincident_RN` spells the NaN out at `RN`.
+2. **Every scalar type, counting argument** (`counted_*`): length `L1 + 1`, face adjacency, every cell inside
+   the index box spanned by origin and end cell (hence inside the grid), last cell = the end point's cell.
+   These hold at `Float`, `Float32`, `ℝ`, `RN` under the residual hypotheses collected in `Counted`:
+   * `ord`  — `<` on the scalars is irreflexive and transitive (true of IEEE `<`; not provable in Lean for the
+     opaque `Float` types, hence a hypothesis),
+   * `pick` — `PickOK`: the decision tree never prefers the sentinel to a parameter below it
+     (`pick2_ok`, `pick3d_ok`, `pick3f_ok` derive it from `ord` for the four C++ instantiations),
+   * `below` — on every axis with crossings left the crossing parameter `tMax ⊕ k·tDelta` (`k <` number of
+     crossings; finitely many floating-point values) is strictly below the sentinel: finite, not NaN,
+   * `sign` — the step sign agrees with the order of the origin and end indexes on every axis they differ,
+   * `idx`, `dim` — indexes below 2^29, at most three axes (the `int` arithmetic of the counts is exact).
+   Rounding can no longer make the chain leave the grid or miss the end cell; what it can still do is the
+   ORDER in which the crossings are taken (which is what `cells_are_crossed` is about).
+3. **Reals** (`length`, `face_adjacent`, `in_bounds`, `ends_at_end`, `starts_in_origin_cell`: the counting
+   theorems with all residual hypotheses discharged — `valid_counted`; `cells_are_crossed`: the closed
+   extent of every visited cell contains a point of the segment).  Exact arithmetic on the values of the
+   floats; the only partial operations on the path are the divisions by the ray length (`o ≠ e` gives
+   `range > 0`) and by a direction component (only when the step on that axis is non-zero); both guards are
+   discharged explicitly, Mathlib's `x / 0 = 0` is never relied on.  The sentinel is an arbitrary real
+   `Big.M` with `range < Big.M`.  `SpecOK` (argmin, positive squared norm) is discharged for the four C++
+   instantiations by `spec2_ok`, `spec3d_ok`, `spec3f_ok`.
 
-Helper lemmas: `RomeaProofs/Lemmas/C14Basic.lean` (vectors, grid index map), `C14Axis.lean` (one axis),
-`C14Ray.lean` (fresh ray), `C14Steps.lean` (the merge argument).
+Helper lemmas: `RomeaProofs/Lemmas/C14Basic.lean` (vectors, grid index map), `C14Count.lean` (counting
+argument), `C14Axis.lean` (one axis), `C14Ray.lean` (fresh ray), `C14Steps.lean` (crossing order over ℝ).
 -/
+set_option linter.unusedSectionVars false
+
 namespace Romea.C14
 open Romea Romea.RayCast
 
@@ -108,18 +114,21 @@ theorem castTo_after_setOrigin (sp : Spec d α) (G : Grid d α) (s s' : State d 
     (o e : Vec d α) :
     castTo sp G (setOrigin G (runOps sp G s ops) o) e = castOE sp G s' o e := rfl
 
-omit [Sub α] [Mul α] [Div α] [LT α] [DecidableLT α] [NatCast α] [IntCast α] [OfScientific α] [Trans α] [Trunc α]
-  [Limits α] in
+private theorem stepAxis_origin (s : State d α) (c : Vec d Int) (a : Fin d) :
+    (stepAxis s c a).1.o = s.o ∧ (stepAxis s c a).1.oIdx = s.oIdx := by
+  unfold stepAxis
+  dsimp only
+  split_ifs <;> exact ⟨rfl, rfl⟩
+
 private theorem steps_origin (sp : Spec d α) (k : Nat) (s : State d α) (c : Vec d Int) :
     (steps sp k s c).1.o = s.o ∧ (steps sp k s c).1.oIdx = s.oIdx := by
   induction k generalizing s c with
   | zero => exact ⟨rfl, rfl⟩
   | succ k ih =>
-    have := ih (next sp s c).1 (next sp s c).2
-    simpa [steps, next] using this
+    have h1 := ih (next sp s c).1 (next sp s c).2
+    have h2 := stepAxis_origin s c (sp.pick s.tMax)
+    exact ⟨h1.1.trans h2.1, h1.2.trans h2.2⟩
 
-omit [Sub α] [Mul α] [Div α] [LT α] [DecidableLT α] [NatCast α] [IntCast α] [OfScientific α] [Trans α] [Trunc α]
-  [Limits α] in
 private theorem cast_origin (sp : Spec d α) (s : State d α) :
     (RayCast.cast sp s).1.o = s.o ∧ (RayCast.cast sp s).1.oIdx = s.oIdx :=
   steps_origin sp _ s s.oIdx
@@ -151,7 +160,9 @@ private theorem stepOp_origin (sp : Spec d α) (G : Grid d α) (s : State d α) 
   | castOE o e =>
     have := cast_origin sp (setEnd sp G (setOrigin G s o) e)
     exact Prod.ext this.1 this.2
-  | next c => rfl
+  | next c =>
+    have := stepAxis_origin s c (sp.pick s.tMax)
+    exact Prod.ext this.1 this.2
 
 private theorem runOps_origin (sp : Spec d α) (G : Grid d α) (s : State d α) (ops : List (Op d α)) :
     ((runOps sp G s ops).o, (runOps sp G s ops).oIdx) =
@@ -190,8 +201,6 @@ theorem castTo_depends_on_origin_only (sp : Spec d α) (G : Grid d α) (s s' : S
 theorem starts_at_origin (sp : Spec d α) (G : Grid d α) (s : State d α) (o e : Vec d α) :
     (castOE sp G s o e).2.head? = some (cellIndexes G o) := rfl
 
-omit [Sub α] [Mul α] [Div α] [LT α] [DecidableLT α] [NatCast α] [IntCast α] [OfScientific α] [Trans α] [Trunc α]
-  [Limits α] in
 private theorem steps_length (sp : Spec d α) (k : Nat) (s : State d α) (c : Vec d Int) :
     (steps sp k s c).2.length = k := by
   induction k generalizing s c with
@@ -223,6 +232,139 @@ theorem coincident (sp : Spec d α) (G : Grid d α) (s : State d α) (o : Vec d 
   rw [hn]
   rfl
 
+/-! ### The counting theorems -/
+
+/-- the state after `setOriginPoint(o); setEndPoint(e)` (it does not depend on the earlier state) -/
+def fresh (sp : Spec d α) (G : Grid d α) (o e : Vec d α) : State d α := setEnd sp G (setOrigin G init o) e
+
+theorem fresh_eq (sp : Spec d α) (G : Grid d α) (s : State d α) (o e : Vec d α) :
+    setEnd sp G (setOrigin G s o) e = fresh sp G o e := rfl
+
+/-- residual hypotheses of the counting theorems for `cast(o, e)` (see the file header) -/
+structure Counted (sp : Spec d α) (G : Grid d α) (o e : Vec d α) : Prop where
+  dim : d ≤ 3
+  ord : StrictOrd α
+  pick : PickOK sp
+  idx : ∀ i, 0 ≤ (cellIndexes G o).at i ∧ (cellIndexes G o).at i < 2 ^ 29 ∧
+    0 ≤ (cellIndexes G e).at i ∧ (cellIndexes G e).at i < 2 ^ 29
+  sign : ∀ i, ((cellIndexes G o).at i < (cellIndexes G e).at i → (fresh sp G o e).step.at i = 1) ∧
+    ((cellIndexes G e).at i < (cellIndexes G o).at i → (fresh sp G o e).step.at i = -1)
+  below : ∀ i k, k < ((cellIndexes G e).at i - (cellIndexes G o).at i).natAbs →
+    tmaxAfter (fresh sp G o e) i k < Limits.maxVal
+
+private theorem counted_fresh {sp : Spec d α} {G : Grid d α} {o e : Vec d α} (C : Counted sp G o e) :
+    Fresh (fresh sp G o e) where
+  idx := C.idx
+  rem0 := by
+    intro i
+    obtain ⟨h1, h2, h3, h4⟩ := C.idx i
+    have : (fresh sp G o e).rem.at i =
+        iabs (toInt32 ((cellIndexes G e).at i) - toInt32 ((cellIndexes G o).at i)) := by
+      simp [fresh, setEnd, setOrigin]
+    rw [this, toInt32_id h3 (lt_trans h4 (by norm_num)), toInt32_id h1 (lt_trans h2 (by norm_num)), iabs_eq]
+    show _ = (((cellIndexes G e).at i - (cellIndexes G o).at i).natAbs : ℤ)
+    simp
+  tmax0 := by
+    intro i h0
+    obtain ⟨h1, h2, h3, h4⟩ := C.idx i
+    have h0' : (cellIndexes G e).at i - (cellIndexes G o).at i = 0 := Int.natAbs_eq_zero.mp h0
+    have hr : iabs (toInt32 ((cellIndexes G e).at i) - toInt32 ((cellIndexes G o).at i)) = 0 := by
+      rw [toInt32_id h3 (lt_trans h4 (by norm_num)), toInt32_id h1 (lt_trans h2 (by norm_num)), h0']
+      rfl
+    have : (fresh sp G o e).tMax.at i =
+        if iabs (toInt32 ((cellIndexes G e).at i) - toInt32 ((cellIndexes G o).at i)) = 0 then Limits.maxVal
+        else (fresh sp G o e).tMax.at i := by
+      simp only [fresh, setEnd, setOrigin, at_build]
+      split <;> rfl
+    rw [this, if_pos hr]
+  sign := C.sign
+  below := C.below
+
+/-- everything the counting argument gives for a complete cast from a fresh state -/
+private theorem count_facts {sp : Spec d α} (hd : d ≤ 3) (ho : StrictOrd α) (hp : PickOK sp)
+    {s₀ : State d α} (F : Fresh s₀) :
+    ∃ tl, (RayCast.cast sp s₀).2 = s₀.oIdx :: tl ∧ tl.length = ∑ i, needed s₀ i ∧
+      ChainAdj s₀.oIdx tl ∧ (∀ c ∈ (RayCast.cast sp s₀).2, InBox s₀ c) ∧ lastCell s₀.oIdx tl = s₀.eIdx := by
+  obtain ⟨m', hI, hsum, hlen, hchain, hall⟩ :=
+    steps_count ho hp F (∑ i, needed s₀ i) s₀ s₀.oIdx (fun _ => 0) F.inv_init
+      (by simp only [Finset.sum_const_zero, zero_add]; exact le_refl _)
+  have hn : (numCells s₀).toNat - 1 = ∑ i, needed s₀ i := by
+    rw [numCells_eq hd F.idx]
+    omega
+  have hl : (RayCast.cast sp s₀).2 = s₀.oIdx :: (steps sp (∑ i, needed s₀ i) s₀ s₀.oIdx).2 := by
+    unfold RayCast.cast
+    rw [hn]
+  refine ⟨_, hl, hlen, hchain, ?_, hI.final F (by simpa using hsum)⟩
+  intro c hc
+  rw [hl] at hc
+  rcases List.mem_cons.mp hc with rfl | h
+  · exact F.inv_init.inBox F
+  · exact hall c h
+
+private theorem adjacent_l1 {c c' : Vec d Int} (h : Adjacent c c') : l1 c c' = 1 := by
+  obtain ⟨a, ha, hne⟩ := h
+  unfold l1
+  rw [Finset.sum_eq_single a]
+  · rcases ha with h | h <;> rw [h] <;> simp
+  · intro i _ hi; rw [hne i hi]; simp
+  · intro h; exact absurd (Finset.mem_univ a) h
+
+private theorem chain_of_count {sp : Spec d α} {G : Grid d α} {o e : Vec d α} (s : State d α)
+    {tl : List (Vec d Int)} (hl : (RayCast.cast sp (fresh sp G o e)).2 = (fresh sp G o e).oIdx :: tl)
+    (hchain : ChainAdj (fresh sp G o e).oIdx tl) (k : ℕ) (hk : k + 1 < (castOE sp G s o e).2.length) :
+    Adjacent ((castOE sp G s o e).2[k]'(by omega)) ((castOE sp G s o e).2[k + 1]'hk) := by
+  have key : ∀ (l : List (Vec d Int)) (_ : l = (fresh sp G o e).oIdx :: tl) (hk' : k + 1 < l.length),
+      Adjacent (l[k]'(by omega)) (l[k + 1]'hk') := by
+    intro l hl' hk'
+    subst hl'
+    exact chainAdj_get _ tl hchain k hk'
+  exact key _ hl hk
+
+/-- **length** (every scalar type): `L1 + 1` entries -/
+theorem counted_length {sp : Spec d α} {G : Grid d α} {o e : Vec d α} (C : Counted sp G o e) (s : State d α) :
+    (castOE sp G s o e).2.length = l1 (cellIndexes G o) (cellIndexes G e) + 1 := by
+  obtain ⟨tl, hl, hlen, -⟩ := count_facts C.dim C.ord C.pick (counted_fresh C)
+  show (RayCast.cast sp (fresh sp G o e)).2.length = _
+  rw [hl, List.length_cons, hlen]
+  rfl
+
+/-- **face_adjacent** (every scalar type): one index changes by exactly one at every step -/
+theorem counted_face_adjacent {sp : Spec d α} {G : Grid d α} {o e : Vec d α} (C : Counted sp G o e)
+    (s : State d α) (k : ℕ) (hk : k + 1 < (castOE sp G s o e).2.length) :
+    Adjacent ((castOE sp G s o e).2[k]'(by omega)) ((castOE sp G s o e).2[k + 1]'hk) ∧
+    l1 ((castOE sp G s o e).2[k]'(by omega)) ((castOE sp G s o e).2[k + 1]'hk) = 1 := by
+  obtain ⟨tl, hl, -, hchain, -⟩ := count_facts C.dim C.ord C.pick (counted_fresh C)
+  have := chain_of_count s hl hchain k hk
+  exact ⟨this, adjacent_l1 this⟩
+
+/-- **index box** (every scalar type): every visited cell lies between the origin cell and the end cell on every
+    axis — each axis is only ever stepped towards the end cell, and never beyond it -/
+theorem counted_in_index_box {sp : Spec d α} {G : Grid d α} {o e : Vec d α} (C : Counted sp G o e)
+    (s : State d α) (c : Vec d Int) (hc : c ∈ (castOE sp G s o e).2) (i : Fin d) :
+    min ((cellIndexes G o).at i) ((cellIndexes G e).at i) ≤ c.at i ∧
+    c.at i ≤ max ((cellIndexes G o).at i) ((cellIndexes G e).at i) := by
+  obtain ⟨tl, -, -, -, hbox, -⟩ := count_facts C.dim C.ord C.pick (counted_fresh C)
+  exact hbox c hc i
+
+/-- **in_bounds** (every scalar type): if the origin and the end cell are cells of the grid, so is every visited cell -/
+theorem counted_in_bounds {sp : Spec d α} {G : Grid d α} {o e : Vec d α} (C : Counted sp G o e)
+    (hK : ∀ i, (cellIndexes G o).at i < G.n.at i) (hE : ∀ i, (cellIndexes G e).at i < G.n.at i)
+    (s : State d α) (c : Vec d Int) (hc : c ∈ (castOE sp G s o e).2) (i : Fin d) :
+    0 ≤ c.at i ∧ c.at i < G.n.at i := by
+  have hb := counted_in_index_box C s c hc i
+  have := C.idx i
+  have := hK i
+  have := hE i
+  omega
+
+/-- **ends in the end cell** (every scalar type): the last entry is exactly the end point's cell index -/
+theorem counted_ends_in_end_cell {sp : Spec d α} {G : Grid d α} {o e : Vec d α} (C : Counted sp G o e)
+    (s : State d α) : (castOE sp G s o e).2.getLast? = some (cellIndexes G e) := by
+  obtain ⟨tl, hl, -, -, -, hlast⟩ := count_facts C.dim C.ord C.pick (counted_fresh C)
+  show (RayCast.cast sp (fresh sp G o e)).2.getLast? = _
+  rw [hl, List.getLast?_eq_getLast_of_ne_nil (List.cons_ne_nil _ _), ← lastCell_eq_getLast, hlast]
+  rfl
+
 end anyScalar
 
 /-! ## Geometry over the reals (distinct points inside the extent) -/
@@ -242,107 +384,17 @@ structure Valid (sp : Spec d ℝ) (lo hi : Vec d ℝ) (r : ℝ) (o e : Vec d ℝ
 
 variable {sp : Spec d ℝ} {lo hi : Vec d ℝ} {r : ℝ} {o e : Vec d ℝ}
 
-private theorem crossed_bound (V : Valid sp lo hi r o e) (c : Vec d Int)
-    (hc : Crossed (mkGrid lo hi r) o e c) (i : Fin d) :
-    0 ≤ c.at i ∧ c.at i < (mkGrid lo hi r).n.at i := by
-  obtain ⟨u, hu0, hu1, hcell⟩ := hc
-  apply closed_cell_in_grid V.grid i (c.at i) _ _ (hcell i)
-  have ho := V.ho i
-  have he := V.he i
-  constructor <;> nlinarith
-
-private theorem crossed_bound31 (V : Valid sp lo hi r o e) (c : Vec d Int)
-    (hc : Crossed (mkGrid lo hi r) o e c) (i : Fin d) :
-    0 ≤ c.at i ∧ c.at i < 2 ^ 31 := by
-  have := crossed_bound V c hc i
-  refine ⟨this.1, lt_trans this.2 ?_⟩
-  rw [mkGrid_n V.grid]
-  exact lt_trans (V.grid.hfit i) (by norm_num)
-
-private theorem numCells_fresh (V : Valid sp lo hi r o e) (s : State d ℝ) :
-    numCells (setEnd sp (mkGrid lo hi r) (setOrigin (mkGrid lo hi r) s o) e) =
-      ((∑ i, needed (setEnd sp (mkGrid lo hi r) (setOrigin (mkGrid lo hi r) s o) e) i : ℕ) : ℤ) + 1 := by
-  set G := mkGrid lo hi r
-  set s₀ := setEnd sp G (setOrigin G s o) e
-  have hK : ∀ i, 0 ≤ s₀.oIdx.at i ∧ s₀.oIdx.at i < 2 ^ 29 := by
-    intro i
-    have := cellIndexes_spec V.grid o V.ho i
-    simp only [] at this
-    refine ⟨this.2.2.1, lt_trans this.2.2.2 ?_⟩
-    rw [mkGrid_n V.grid]; exact V.grid.hfit i
-  have hE : ∀ i, 0 ≤ s₀.eIdx.at i ∧ s₀.eIdx.at i < 2 ^ 29 := by
-    intro i
-    have := cellIndexes_spec V.grid e V.he i
-    simp only [] at this
-    refine ⟨this.2.2.1, lt_trans this.2.2.2 ?_⟩
-    rw [mkGrid_n V.grid]; exact V.grid.hfit i
-  have hterm : ∀ i, iabs (toInt32 (s₀.eIdx.at i) - toInt32 (s₀.oIdx.at i)) = ((needed s₀ i : ℕ) : ℤ) := by
-    intro i
-    rw [toInt32_id (hE i).1 (lt_trans (hE i).2 (by norm_num)),
-      toInt32_id (hK i).1 (lt_trans (hK i).2 (by norm_num)), iabs_eq]
-    unfold needed
-    simp
-  have hsmall : ∀ i, needed s₀ i < 2 ^ 29 := by
-    intro i
-    unfold needed
-    have := hK i; have := hE i
-    omega
-  have hsum : ∑ i, needed s₀ i ≤ d * 2 ^ 29 := by
-    calc ∑ i, needed s₀ i ≤ ∑ _i : Fin d, 2 ^ 29 := Finset.sum_le_sum (fun i _ => (hsmall i).le)
-      _ = d * 2 ^ 29 := by simp
-  have hd := V.dim
-  unfold numCells
-  rw [sumFrom_eq]
-  simp only [hterm, zero_add]
-  rw [← Nat.cast_sum]
-  apply wrap64_id
-  · positivity
-  · have : ((∑ i, needed s₀ i : ℕ) : ℤ) ≤ 3 * 2 ^ 29 := by
-      have : ∑ i, needed s₀ i ≤ 3 * 2 ^ 29 := le_trans hsum (Nat.mul_le_mul_right _ hd)
-      exact_mod_cast this
-    omega
-
-/-- everything the traversal lemma gives for a complete `cast(o, e)` -/
-private theorem cast_facts (V : Valid sp lo hi r o e) (s : State d ℝ) :
-    let G := mkGrid lo hi r
-    let s₀ := setEnd sp G (setOrigin G s o) e
-    let l := (castOE sp G s o e).2
-    ∃ tl m', l = cellIndexes G o :: tl ∧ tl.length = ∑ i, needed s₀ i ∧
-      ChainAdj (cellIndexes G o) tl ∧ (∀ c ∈ l, Crossed G o e c) ∧
-      Inv (range sp o e) s₀ (steps sp (∑ i, needed s₀ i) s₀ s₀.oIdx).1 (lastCell (cellIndexes G o) tl) m' ∧
-      ∑ i, m' i = ∑ i, needed s₀ i := by
-  intro G s₀ l
-  have F := fresh_facts V.grid V.spec s V.ho V.he V.hne V.hM
-  have hb := fun c hc => crossed_bound31 V c hc
-  obtain ⟨m', hI, hsum, hlen, hchain, hall⟩ :=
-    steps_lemma V.spec F hb (∑ i, needed s₀ i) s₀ s₀.oIdx (fun _ => 0) RayFacts.inv_init
-      (by simp only [Finset.sum_const_zero, zero_add]; exact le_refl _)
-  have hn : (numCells s₀).toNat - 1 = ∑ i, needed s₀ i := by
-    have h := numCells_fresh V s
-    change numCells s₀ = ((∑ i, needed s₀ i : ℕ) : ℤ) + 1 at h
-    rw [h]
-    omega
-  have hl : l = cellIndexes G o :: (steps sp (∑ i, needed s₀ i) s₀ s₀.oIdx).2 := by
-    show (RayCast.cast sp s₀).2 = _
-    unfold RayCast.cast
-    rw [hn]
-    rfl
-  refine ⟨_, m', hl, hlen, hchain, ?_, hI, by simpa using hsum⟩
-  intro c hc
-  rw [hl] at hc
-  rcases List.mem_cons.mp hc with rfl | h
-  · exact F.crossed_init
-  · exact hall c h
-
-private theorem needed_eq_l1 (G : Grid d ℝ) (s : State d ℝ) :
-    ∑ i, needed (setEnd sp G (setOrigin G s o) e) i = l1 (cellIndexes G o) (cellIndexes G e) := rfl
+/-- the residual hypotheses of the counting theorems are met over the reals -/
+theorem valid_counted (V : Valid sp lo hi r o e) : Counted sp (mkGrid lo hi r) o e := by
+  have F := fresh_facts V.grid V.spec init V.ho V.he V.hne V.hM
+  have Fr := F.fresh
+  exact ⟨V.dim, strictOrd_real, pickOK_of_argmin V.spec, Fr.idx, Fr.sign, Fr.below⟩
 
 /-- **length**: the chain has exactly (L1 distance between origin and end cells) + 1 entries -/
 theorem length (V : Valid sp lo hi r o e) (s : State d ℝ) :
     (castOE sp (mkGrid lo hi r) s o e).2.length =
-      l1 (cellIndexes (mkGrid lo hi r) o) (cellIndexes (mkGrid lo hi r) e) + 1 := by
-  obtain ⟨tl, m', hl, hlen, -⟩ := cast_facts V s
-  rw [hl, List.length_cons, hlen, needed_eq_l1]
+      l1 (cellIndexes (mkGrid lo hi r) o) (cellIndexes (mkGrid lo hi r) e) + 1 :=
+  counted_length (valid_counted V) s
 
 /-- the first cell is the cell that contains the origin (its half-open extent does) -/
 theorem starts_in_origin_cell (V : Valid sp lo hi r o e) (s : State d ℝ) :
@@ -350,81 +402,48 @@ theorem starts_in_origin_cell (V : Valid sp lo hi r o e) (s : State d ℝ) :
       ∀ i, face (mkGrid lo hi r) i (c.at i) ≤ o.at i ∧ o.at i < face (mkGrid lo hi r) i (c.at i + 1) :=
   ⟨_, rfl, fun i => ⟨(cellIndexes_spec V.grid o V.ho i).1, (cellIndexes_spec V.grid o V.ho i).2.1⟩⟩
 
-omit [Big] in
-private theorem adjacent_l1 {c c' : Vec d Int} (h : Adjacent c c') : l1 c c' = 1 := by
-  obtain ⟨a, ha, hne⟩ := h
-  unfold l1
-  rw [Finset.sum_eq_single a]
-  · rcases ha with h | h <;> rw [h] <;> simp
-  · intro i _ hi; rw [hne i hi]; simp
-  · intro h; exact absurd (Finset.mem_univ a) h
-
-/-- **face_adjacent**: every step moves to a face-adjacent cell (one index changes by exactly one) —
-    "the sentinel never wins while a real crossing remains" -/
+/-- **face_adjacent**: every step moves to a face-adjacent cell (one index changes by exactly one) -/
 theorem face_adjacent (V : Valid sp lo hi r o e) (s : State d ℝ) (k : ℕ)
     (hk : k + 1 < (castOE sp (mkGrid lo hi r) s o e).2.length) :
     Adjacent ((castOE sp (mkGrid lo hi r) s o e).2[k]'(by omega)) ((castOE sp (mkGrid lo hi r) s o e).2[k + 1]'hk) ∧
-    l1 ((castOE sp (mkGrid lo hi r) s o e).2[k]'(by omega)) ((castOE sp (mkGrid lo hi r) s o e).2[k + 1]'hk) = 1 := by
-  obtain ⟨tl, m', hl, -, hchain, -⟩ := cast_facts V s
-  have key : ∀ (l : List (Vec d Int)) (hl' : l = cellIndexes (mkGrid lo hi r) o :: tl) (hk' : k + 1 < l.length),
-      Adjacent (l[k]'(by omega)) (l[k + 1]'hk') := by
-    intro l hl' hk'
-    subst hl'
-    exact chainAdj_get _ tl hchain k hk'
-  have := key _ hl hk
-  exact ⟨this, adjacent_l1 this⟩
+    l1 ((castOE sp (mkGrid lo hi r) s o e).2[k]'(by omega)) ((castOE sp (mkGrid lo hi r) s o e).2[k + 1]'hk) = 1 :=
+  counted_face_adjacent (valid_counted V) s k hk
 
 /-- **cells_are_crossed**: the closed extent of every visited cell contains a point of the segment -/
 theorem cells_are_crossed (V : Valid sp lo hi r o e) (s : State d ℝ) (c : Vec d Int)
     (hc : c ∈ (castOE sp (mkGrid lo hi r) s o e).2) :
     ∃ u : ℝ, 0 ≤ u ∧ u ≤ 1 ∧ ∀ i, face (mkGrid lo hi r) i (c.at i) ≤ o.at i + u * (e.at i - o.at i) ∧
       o.at i + u * (e.at i - o.at i) ≤ face (mkGrid lo hi r) i (c.at i + 1) := by
-  obtain ⟨tl, m', -, -, -, hall, -⟩ := cast_facts V s
-  exact hall c hc
+  have F := fresh_facts V.grid V.spec s V.ho V.he V.hne V.hM
+  set s₀ := setEnd sp (mkGrid lo hi r) (setOrigin (mkGrid lo hi r) s o) e with hs₀
+  have hn : (numCells s₀).toNat - 1 = ∑ i, needed s₀ i := by
+    rw [numCells_eq V.dim F.idx]
+    omega
+  have hl : (castOE sp (mkGrid lo hi r) s o e).2 = s₀.oIdx :: (steps sp (∑ i, needed s₀ i) s₀ s₀.oIdx).2 := by
+    show (RayCast.cast sp s₀).2 = _
+    unfold RayCast.cast
+    rw [hn]
+  rw [hl] at hc
+  rcases List.mem_cons.mp hc with rfl | h
+  · exact F.crossed_init
+  · exact steps_real V.spec F (∑ i, needed s₀ i) s₀ s₀.oIdx (fun _ => 0) F.fresh.inv_init F.rinv_init
+      (by simp only [Finset.sum_const_zero, zero_add]; exact le_refl _) c h
 
 /-- **in_bounds**: the ray never leaves the grid -/
 theorem in_bounds (V : Valid sp lo hi r o e) (s : State d ℝ) (c : Vec d Int)
     (hc : c ∈ (castOE sp (mkGrid lo hi r) s o e).2) (i : Fin d) :
-    0 ≤ c.at i ∧ c.at i < (mkGrid lo hi r).n.at i := by
-  obtain ⟨tl, m', -, -, -, hall, -⟩ := cast_facts V s
-  exact crossed_bound V c (hall c hc) i
+    0 ≤ c.at i ∧ c.at i < (mkGrid lo hi r).n.at i :=
+  counted_in_bounds (valid_counted V)
+    (fun i => (cellIndexes_spec V.grid o V.ho i).2.2.2) (fun i => (cellIndexes_spec V.grid e V.he i).2.2.2) s c hc i
 
-/-- **ends_at_end**: the closed extent of the last cell contains the end point, and the last cell is the
-    end point's own cell whenever the end point is not on a cell border -/
+/-- **ends_at_end**: the last cell is the end point's own cell (also when the end point is on a cell border: the
+    cell whose half-open extent contains it) -/
 theorem ends_at_end (V : Valid sp lo hi r o e) (s : State d ℝ) :
     ∃ last, (castOE sp (mkGrid lo hi r) s o e).2.getLast? = some last ∧
-      (∀ i, face (mkGrid lo hi r) i (last.at i) ≤ e.at i ∧ e.at i ≤ face (mkGrid lo hi r) i (last.at i + 1)) ∧
-      ((∀ i (k : Int), e.at i ≠ face (mkGrid lo hi r) i k) → last = cellIndexes (mkGrid lo hi r) e) := by
-  obtain ⟨tl, m', hl, -, -, -, hI, hsum⟩ := cast_facts V s
-  have F := fresh_facts V.grid V.spec s V.ho V.he V.hne V.hM
-  have hend := fun i => end_in_final_cell F hI hsum i
-  refine ⟨lastCell (cellIndexes (mkGrid lo hi r) o) tl, ?_, hend, ?_⟩
-  · rw [hl, lastCell_eq_getLast, List.getLast?_eq_getLast_of_ne_nil]
-  · intro hoff
-    apply vec_ext
-    intro i
-    have hr := V.grid.hr
-    have h1 := hend i
-    have h2 := cellIndexes_spec V.grid e V.he i
-    simp only [] at h2
-    set a := (lastCell (cellIndexes (mkGrid lo hi r) o) tl).at i
-    set b := (cellIndexes (mkGrid lo hi r) e).at i
-    have hlo : face (mkGrid lo hi r) i a < e.at i := lt_of_le_of_ne h1.1 (fun h => hoff i a h.symm)
-    have hhi : e.at i < face (mkGrid lo hi r) i (a + 1) := lt_of_le_of_ne h1.2 (hoff i (a + 1))
-    unfold InClosed at h1
-    unfold face at hlo hhi h2
-    rw [mkGrid_r] at hlo hhi h2
-    have hab : (a : ℝ) < (b : ℝ) + 1 := by
-      have : (a : ℝ) * r < ((b + 1 : ℤ) : ℝ) * r := by linarith [h2.2.1]
-      push_cast at this
-      nlinarith
-    have hba : (b : ℝ) < (a : ℝ) + 1 := by
-      have : (b : ℝ) * r < ((a + 1 : ℤ) : ℝ) * r := by linarith [h2.1]
-      push_cast at this
-      nlinarith
-    have : a < b + 1 := by exact_mod_cast hab
-    have : b < a + 1 := by exact_mod_cast hba
-    omega
+      last = cellIndexes (mkGrid lo hi r) e ∧
+      ∀ i, face (mkGrid lo hi r) i (last.at i) ≤ e.at i ∧ e.at i < face (mkGrid lo hi r) i (last.at i + 1) :=
+  ⟨_, counted_ends_in_end_cell (valid_counted V) s, rfl,
+    fun i => ⟨(cellIndexes_spec V.grid e V.he i).1, (cellIndexes_spec V.grid e V.he i).2.1⟩⟩
 
 end reals
 
@@ -463,12 +482,12 @@ theorem coincident_RN (sp : Spec d RN) (hsq : sp.sqNorm (build fun _ => RN.of 0)
     simp
   refine ⟨hdir, hstep, ?_, coincident sp G s p⟩
   intro i
-  have : s₀.tMax.at i = if s₀.step.at i ≠ 0 then
-      ((centre G (setOrigin G s p).oIdx).at i + ((s₀.step.at i : Int) : RN) * G.r * half - (setOrigin G s p).o.at i) / s₀.dir.at i
-      else Limits.maxVal := by
-    simp [s₀, setEnd]
-  rw [this, hstep i]
-  simp
+  have : s₀.tMax.at i =
+      if iabs (toInt32 ((cellIndexes G p).at i) - toInt32 ((cellIndexes G p).at i)) = 0 then Limits.maxVal
+      else s₀.tMax.at i := by
+    simp only [s₀, setEnd, setOrigin, at_build]
+    split <;> rfl
+  rw [this, if_pos (by simp [iabs])]
 
 example : (sqNorm2 (build fun _ => RN.of 0) : RN) = RN.of 0 := by simp [sqNorm2]
 example : (sqNorm3L (build fun _ => RN.of 0) : RN) = RN.of 0 := by simp [sqNorm3L]
@@ -486,7 +505,7 @@ private def cst (x : ℝ) : Vec 2 ℝ := build fun _ => x
 private instance : Big := ⟨100⟩
 
 /-- the 2D grid of the repository's test (extent [-10, 10]², resolution 1/10), a ray from (0, 0) to (5, 1) -/
-example : Valid (spec2 : Spec 2 ℝ) (cst (-10)) (cst 10) (1 / 10) (v2 0 0) (v2 5 1) where
+private theorem exValid : Valid (spec2 : Spec 2 ℝ) (cst (-10)) (cst 10) (1 / 10) (v2 0 0) (v2 5 1) where
   dim := by norm_num
   grid := by
     refine ⟨by norm_num, ?_, ?_⟩
@@ -514,6 +533,12 @@ example : Valid (spec2 : Spec 2 ℝ) (cst (-10)) (cst 10) (1 / 10) (v2 0 0) (v2 
       unfold sqNorm2; exact add_nonneg (mul_self_nonneg _) (mul_self_nonneg _)
     · show sqNorm2 _ < _
       simp [sqNorm2, v2]; norm_num
+
+/-- … hence the residual hypotheses of the counting theorems are satisfiable (here at ℝ) -/
+example : Counted (spec2 : Spec 2 ℝ) (mkGrid (cst (-10)) (cst 10) (1 / 10)) (v2 0 0) (v2 5 1) := valid_counted exValid
+
+/-- the decision trees meet `PickOK` on any strictly ordered scalar type -/
+example : PickOK (spec3f : Spec 3 ℝ) := pick3f_ok strictOrd_real
 
 /-- the coincident statement is about a one-cell chain, for any scalar (here: an instance at ℝ) -/
 example (s : State 2 ℝ) : (castOE spec2 (mkGrid (cst (-10)) (cst 10) (1 / 10)) s (v2 1 1) (v2 1 1)).2.length = 1 := by
